@@ -725,6 +725,41 @@ theorem C01_using_alias_general (env : Env) (hp : RulesProgress env.cfg = true) 
 
 end
 
+section
+open P
+
+/-- **function definitions `S ptr-ops f ( parameters ) { body }` through `parse()`'s loop**: any return-type specifier, any decoded
+    parameter list, ANY bracket-balanced body: exactly ONE `on_function` with `has_body` set; the body is skipped exactly — the
+    stream resumes right after its closing brace, no `;` is expected, nothing of the body is reported -/
+theorem C01_function_definition (env : Env) (hp : RulesProgress env.cfg = true) (F D : Nat) (w : World)
+    (toks : List Tok) (first : Tok) (trest : List Tok) (segs : List PQSeg) (cst vol : Bool) (ops : List Tok) (x op : Tok) (plist : List Param) (ob : Tok) (content : List Tok) (cb : Tok) (d1 : DType) (b1 b0 bmid bx bo bc bb b' : Buf)
+    (blk : Block) (rest : List Block) (hstack : w.stack = blk :: rest) (hk : blk.hdr.kind ≠ .cls)
+    (hmu : w.muted = false) (hfa : ¬ env.faultAt = some w.delivered)
+    (hspec : TypeSpecR env (F + 1) (D + 1 + 1) toks segs cst vol) (htoks : toks = first :: trest) (hfirst : specFirst first.type = true)
+    (htok : tokenEofOk env.cfg w.buf = .ok (some first, b1))
+    (hy0 : Yields env.cfg b1 trest b0)
+    (hops : opsHeadOk ops = true) (hopsv : ∀ o ∈ ops, o.value ≠ "auto")
+    (hy : Yields env.cfg b0 ops bmid)
+    (ha : applyPtrOps (.type (.mk segs none false) cst vol) (ops.map (·.type)) = some d1)
+    (htx : tokenEofOk env.cfg bmid = .ok (some x, bx)) (hx : x.type = "NAME") (hxv : identVal x.value = true)
+    (hto : tokenEofOk env.cfg bx = .ok (some op, bo)) (hop : op.type = "(")
+    (hparams : ∀ W : World, W.buf = bo → ∃ w7, interp env (parseParametersStep (F + 1) (core (F + 1) (D + 1 + 1 + 1)) true) W = (w7, .ok (plist, false, [])) ∧
+      SameButLog W w7 ∧ w7.buf = bc)
+    (htb : tokenEofOk env.cfg bc = .ok (some ob, bb)) (hob : ob.type = "{")
+    (hbal : Balanced "{" "}" content) (hcb : cb.type = "}") (hyb : Yields env.cfg bb (content ++ [cb]) b')
+    (hF : ops.length + 2 ≤ F + 1) (hFb : content.length + 1 ≤ F) :
+    ∃ (d : Option String) (bD : Buf) (w7 : World) (ct : CTok) (ev : Event),
+      getDoxygen env.cfg env.mcRe w.buf = .ok (d, bD) ∧
+      interp env (mainBody (F + 1) (core (F + 1) (D + 1 + 1 + 1 + 1)) none) w = (w7, .ok (.inl none)) ∧
+      w7.buf = b' ∧ ct.value = first.value ∧ w7.stack = { blk with loc := .tok ct.sidx } :: rest ∧
+      w7.events = w.events ++ [ev] ∧ ev.kind = .item (.function { plainFunction x d1 d with
+        parameters := plist, hasBody := true }) ∧
+      ev.stateId = blk.id ∧ ev.parentId = rest.head?.map (·.id) ∧
+      w7.delivered = w.delivered + 1 ∧ w7.anon = w.anon ∧ w7.muted = false ∧ w7.nextId = w.nextId :=
+  toplevel_function_body_gen env hp F D w toks first trest segs cst vol ops x op plist ob content cb d1 b1 b0 bmid bx bo bc bb b' blk rest hstack hk hmu hfa hspec htoks hfirst htok hy0 hops hopsv hy ha htx hx hxv hto hop hparams htb hob hbal hcb hyb hF hFb
+
+end
+
 /-! non-vacuity of `C01_whole_source`: the token sequence of
     `namespace a { T x ; ; class C { T f ; public : T g ; } ; }` is an `Item` (a namespace holding a
     variable, a stray `;` and a class with two fields around an access specifier), read from a stream
